@@ -25,16 +25,17 @@ func init() {
 
 // one handler call of a chunked-handler history
 type hOp struct {
-	Kind   string   `json:"kind"` // set add replace append prepend delete touch get gat
-	Key    int      `json:"key"`  // index into the case's client keys
-	Keys   []int    `json:"keys,omitempty"`
-	Len    int      `json:"len,omitempty"`  // data length (data is generated from Seed)
-	Seed   uint64   `json:"seed,omitempty"` // data generator seed
-	Flags  uint32   `json:"flags,omitempty"`
-	TTL    uint32   `json:"ttl,omitempty"`
-	TTLRel string   `json:"ttl_class,omitempty"` // abs-past / abs-future are computed from the clock at run time
-	Lose   []string `json:"lose,omitempty"`      // which backend entries of Key to drop first: "meta", "0", "1", ...
-	Put    []rawPut `json:"put,omitempty"`       // backend entries written directly before the call (requests of other writers)
+	Kind    string   `json:"kind"`               // set add replace append prepend delete touch get gat sleep
+	SleepMs int      `json:"sleep_ms,omitempty"` // kind sleep: real time passes (the handler and the backend read the real clock)
+	Key     int      `json:"key"`                // index into the case's client keys
+	Keys    []int    `json:"keys,omitempty"`
+	Len     int      `json:"len,omitempty"`  // data length (data is generated from Seed)
+	Seed    uint64   `json:"seed,omitempty"` // data generator seed
+	Flags   uint32   `json:"flags,omitempty"`
+	TTL     uint32   `json:"ttl,omitempty"`
+	TTLRel  string   `json:"ttl_class,omitempty"` // abs-past / abs-future are computed from the clock at run time
+	Lose    []string `json:"lose,omitempty"`      // which backend entries of Key to drop first: "meta", "0", "1", ...
+	Put     []rawPut `json:"put,omitempty"`       // backend entries written directly before the call (requests of other writers)
 }
 
 // rawPut is one backend set request of some writer, applied directly to the fake backend
@@ -46,9 +47,9 @@ type rawPut struct {
 
 type hCase struct {
 	Written []rawWrite `json:"written,omitempty"` // complete writes whose requests are injected via Put
-	Keys  []string `json:"keys"`  // client keys (as strings; may contain any byte)
-	Spare []int    `json:"spare"` // spare capacity of the key slice handed to the handler
-	Ops   []hOp    `json:"ops"`
+	Keys    []string   `json:"keys"`              // client keys (as strings; may contain any byte)
+	Spare   []int      `json:"spare"`             // spare capacity of the key slice handed to the handler
+	Ops     []hOp      `json:"ops"`
 }
 
 type rawWrite struct {
@@ -129,6 +130,10 @@ func runChunkedCase(c hCase, w *rig.Writer) (coq string, ok bool, fail *rig.GoFa
 	bkeySet := map[string]bool{}
 	var steps []string
 	for i, op := range c.Ops {
+		if op.Kind == "sleep" {
+			time.Sleep(time.Duration(op.SleepMs) * time.Millisecond)
+			continue
+		}
 		before := time.Now().Unix()
 		ttl := op.TTL
 		switch op.TTLRel {
@@ -600,6 +605,14 @@ func chunkedSeq(e *env, prop string, mode int) {
 			hCase{Keys: []string{"key"}, Spare: []int{0}, Ops: []hOp{
 				{Kind: "set", Key: 0, Len: 2*ds + 5, Seed: 6, TTL: 1000}, {Kind: "touch", Key: 0, TTL: 5000}, {Kind: "append", Key: 0, Len: 5, Seed: 7},
 				{Kind: "get", Key: 0, Keys: []int{0}}, {Kind: "touch", Key: 0, TTL: 0}, {Kind: "prepend", Key: 0, Len: 3, Seed: 8}, {Kind: "get", Key: 0, Keys: []int{0}}}},
+			// real time passes between the write and an append/prepend/touch: the expiry asked for stays
+			hCase{Keys: []string{"key"}, Spare: []int{0}, Ops: []hOp{
+				{Kind: "set", Key: 0, Len: ds + 5, Seed: 11, TTL: 1000}, {Kind: "sleep", SleepMs: 1100}, {Kind: "append", Key: 0, Len: 5, Seed: 12},
+				{Kind: "get", Key: 0, Keys: []int{0}}, {Kind: "sleep", SleepMs: 1100}, {Kind: "prepend", Key: 0, Len: 4, Seed: 13}, {Kind: "get", Key: 0, Keys: []int{0}}}},
+			hCase{Keys: []string{"k2"}, Spare: []int{0}, Ops: []hOp{
+				{Kind: "add", Key: 0, Len: 9, Seed: 14, TTL: 50}, {Kind: "sleep", SleepMs: 1100}, {Kind: "touch", Key: 0, TTL: 700}, {Kind: "sleep", SleepMs: 1100},
+				{Kind: "append", Key: 0, Len: 2 * ds, Seed: 15}, {Kind: "touch", Key: 0, TTL: 300}, {Kind: "sleep", SleepMs: 1100}, {Kind: "get", Key: 0, Keys: []int{0}},
+				{Kind: "replace", Key: 0, Len: 3, Seed: 16, TTL: 20}, {Kind: "sleep", SleepMs: 1100}, {Kind: "prepend", Key: 0, Len: 3, Seed: 17}, {Kind: "get", Key: 0, Keys: []int{0}}}},
 			// a set with an absolute TTL in the past is acknowledged without effect
 			hCase{Keys: []string{"key"}, Spare: []int{0}, Ops: []hOp{
 				{Kind: "set", Key: 0, Len: 2*ds + 1, Seed: 3}, {Kind: "set", Key: 0, Len: 7, Seed: 4, TTLRel: "abs-past", TTL: 5},
